@@ -164,6 +164,7 @@ Definition c03_oracle (s out : list N) : bool :=
    (-DQENTEM_AUTO_ESCAPE_HTML=0) is compared with [auto = false]. *)
 Definition ch_lbrace : N := 123.
 Definition ch_rbrace : N := 125.
+Definition ch_v : N := 118.
 Definition ch_zero : N := 48.
 Definition src_var_v : list N := [123; 118; 97; 114; 58; 118; 125].       (* the tag text "{var:v}" *)
 Definition src_var_open : list N := [123; 118; 97; 114; 58].              (* "{var:" *)
@@ -214,6 +215,7 @@ Section Routing.
     | 5 => vt (src_var_open ++ s ++ [ch_rbrace])
     | 6 => pre_stream ++ vt s
     | 7 | 8 => vt s                 (* the string reached through a pointer-to-value *)
+    | 10 => vt (src_var_open ++ [ch_v] ++ s ++ [ch_rbrace])   (* a loop variable that does not resolve, item without key: echoed *)
     | _ => raw_text s               (* 9: {raw:} through a pointer *)
     end.
 
@@ -228,6 +230,7 @@ Section Routing.
       | 5 => c03_oracle (src_var_open ++ s ++ [ch_rbrace]) out
       | 6 => list_eqb (firstn 3 out) pre_stream && c03_oracle s (skipn 3 out)
       | 7 | 8 => c03_oracle s out
+      | 10 => c03_oracle (src_var_open ++ [ch_v] ++ s ++ [ch_rbrace]) out
       | _ => list_eqb out s
       end
     else
@@ -235,6 +238,7 @@ Section Routing.
       | 3 => match s with [] => list_eqb out src_var_v | _ => list_eqb out s end
       | 4 => true
       | 5 => list_eqb out (src_var_open ++ s ++ [ch_rbrace])
+      | 10 => list_eqb out (src_var_open ++ [ch_v] ++ s ++ [ch_rbrace])
       | 6 => list_eqb out (pre_stream ++ s)
       | _ => list_eqb out s
       end.
